@@ -167,7 +167,7 @@ def run(c):
                                                [[('a.f', [('call', 'a.g', [('line',)]), ('try', 'a.g', [('raise',)])])]])])
     c03.validate(c, traces, meta, lambda m: m['closes'] >= 1)
     c.extra['captures_completed'] = sum(m['closes'] for m in meta)
-    line_level_leg(c, wd, 1 if quick else 2, 150 if quick else 6000)
+    line_level_leg(c, wd, 1 if quick else 2, 700 if quick else 6000)     # (700: every schedule with one forced switch)
 
 
 if __name__ == '__main__':
